@@ -231,7 +231,7 @@ def _val(rng):
 
 
 def _exc(rng):
-    return ["user", rng.randint(0, 3), rng.randint(0, 9)]
+    return kc.rand_exc(rng, 0.5)
 
 
 def _mode(rng):
@@ -444,7 +444,32 @@ def shaped_unhandled(rng):
     return {"t0": "0", "codes": codes, "plan": plan}
 
 
-SHAPED = [shaped_double, shaped_double, shaped_join, shaped_join, shaped_timeouts, shaped_unhandled]
+def shaped_stopiteration(rng):
+    """a shared event failed with StopIteration(k) (the type named by `except StopIteration` in Process._resume): waiters that catch
+    it receive exactly that exception and carry on; with no waiter step()/run() raises it.  Never raised or re-raised inside a process
+    body (PEP 479 would turn it into RuntimeError), so every waiter catches."""
+    L = _Lbl()
+    exc = ["user", kc.TAG_STOPITERATION, rng.randint(0, 9)]
+    nw = rng.choice([0, 1, 2, 3])
+    waiter = [["yield", L.lbl(), ["reg", ["G", 0]], ["L", 1], "catch"], ["log", ["reg", ["L", 1]]],
+              ["timeout", ["L", 2], rng.choice(DELAYS), _val(rng)], ["yield", L.lbl(), ["reg", ["L", 2]], ["L", 3], "catch"],
+              ["return", ["reg", ["L", 1]] if rng.random() < 0.5 else _val(rng)]]
+    late = [["timeout", ["L", 1], "2", ["none"]], ["yield", L.lbl(), ["reg", ["L", 1]], ["L", 2], "catch"],
+            ["yield", L.lbl(), ["reg", ["G", 0]], ["L", 3], "catch"], ["log", ["reg", ["L", 3]]]]
+    trig = [["timeout", ["L", 1], rng.choice(["0", "1"]), ["none"]], ["yield", L.lbl(), ["reg", ["L", 1]], ["L", 2], "catch"],
+            ["fail", ["G", 0], exc]] + _queries(rng, ["G", 0], 10)
+    setup = [["event", ["G", 0]], ["probe", ["G", 0], L.probe()]]
+    for i in range(nw):
+        setup.append(["spawn", ["G", 1 + i], 0, ["none"]])
+    if nw and rng.random() < 0.5:
+        setup.append(["spawn", ["G", 5], 1, ["none"]])
+    setup.append(["spawn", ["G", 6], 2, ["none"]])
+    plan = [["exec", setup]] + rng.choice([[["run"]], [["run_ev", 0], ["run"]], [["run_num", "1"], ["run"]]]) + [["run"]]
+    return {"t0": "0", "codes": [waiter, late, trig], "plan": plan}
+
+
+SHAPED = [shaped_double, shaped_double, shaped_double, shaped_join, shaped_join, shaped_join, shaped_timeouts, shaped_timeouts,
+          shaped_unhandled, shaped_unhandled, shaped_stopiteration]
 
 
 def mutate_case(rng, case):
